@@ -68,6 +68,10 @@ Proof.
   { apply in_range_of_pc. intro E. unfold holds_heap in Hhold. rewrite E in Hhold. discriminate. }
   apply Nat.ltb_lt in Hlt.
   destruct (pc (th w h)) eqn:E; unfold holds_heap in Hhold; rewrite E in Hhold; try discriminate.
+  - (* SpReg *)
+    exists h. unfold wstep. rewrite Hlt. cbv zeta. rewrite E.
+    rewrite (tmx_free_unless w h HI Hh); [|unfold holds_tmx; now rewrite E].
+    destruct (head (th w h)) eqn:Ea; some_tac.
   - (* SpParked *)
     exists h. unfold wstep. rewrite Hlt. cbv zeta. rewrite E.
     rewrite (not_paused_unless_stw w h HI); [eexists; reflexivity|].
@@ -123,6 +127,7 @@ Proof.
   - (* SpPub *) unfold sp_closure. cbv zeta. rewrite Hh, Htm.
     destruct (head (th w i)) eqn:Ea; some_tac; try discriminate.
   - (* SpJoin *) destruct (head (th w i)) eqn:Ea; some_tac; simpl in Hb; try discriminate.
+  - (* SpReg *) rewrite Htm. destruct (head (th w i)) eqn:Ea; some_tac.
   - exfalso; assert (heap w = Some i) by (apply Hhi; reflexivity); congruence.
 Qed.
 
